@@ -490,10 +490,7 @@ def extract():
         raise TranslateError("getGlobalDetector changed shape: " + body[:300])
 
     # the plugin chain and the runner
-    expect_shape(tplugin, r"TestPlugin::runAllPreTestAction\s*\([^)]*\)\s*\{",
-                 "if(enabled_)preTestAction(test,result);next_->runAllPreTestAction(test,result);", "runAllPreTestAction")
-    expect_shape(tplugin, r"TestPlugin::runAllPostTestAction\s*\([^)]*\)\s*\{",
-                 "next_->runAllPostTestAction(test,result);if(enabled_)postTestAction(test,result);", "runAllPostTestAction")
+    # (TestPlugin::runAllPre/PostTestAction are translated by extract_leakchain.py into Gen/LeakChainCode.lean)
     body = function_body(utest, r"UtestShell::runOneTestInCurrentProcess\s*\([^)]*\)\s*\{")
     calls = []
     for mm in re.finditer(r"plugin->runAllPreTestAction\(|=\s*createTest\(\)|testToRun->run\(\)|destroyTest\(testToRun\)|"
